@@ -609,6 +609,8 @@ impl FixedCapacityMemoryPool {
             #[cfg(zipora_verif)]
             crate::memory::verif_sched::point(crate::memory::verif_sched::FC_SPLIT_PEEK);
             let (head, _) = FreeListHead::unpack(free_list.head.load(Ordering::Acquire));
+            #[cfg(zipora_verif)]
+            crate::memory::verif_sched::note(crate::memory::verif_sched::FC_SPLIT_PEEK, head as u64);
             
             if head != LIST_TAIL {
                 // Try to allocate from larger class and split
